@@ -92,9 +92,11 @@ Entry(p, i, mode, api) ==
     [p |-> p, site |-> i - 1, mode |-> mode, api |-> api, code |-> CodeFor(p, i, mode), acc |-> TRUE]
 
 Apis(mode, first) ==
-    IF mode \in {"func_entry", "func_exit"} THEN {"iter", "mod"}
-    ELSE IF mode \in {"empty_alternate", "empty_block_alt"} THEN {"iter", "mod"}
-    ELSE IF first THEN {"iter", "mod", "iter_at", "mod_at"} ELSE {"iter"}
+    \* iter/mod: ModuleIterator / FunctionModifier at the location; *_at: their inject_at; comp/comp_at: the same
+    \* through a ComponentIterator over a component that holds the module
+    IF mode \in {"func_entry", "func_exit"} THEN {"iter", "mod", "comp"}
+    ELSE IF mode \in {"empty_alternate", "empty_block_alt"} THEN {"iter", "mod", "comp"}
+    ELSE IF first THEN {"iter", "mod", "iter_at", "mod_at", "comp", "comp_at"} ELSE {"iter"}
 
 \* instruction-level choices restricted to applicable modes
 ChoicesAt(p, first) ==
